@@ -479,23 +479,56 @@ pub fn gen_model_mixed(d: &mut Dna, cfg: &GenCfg, allow_fixture: bool) -> ModelG
 	crate::gen::gen_model(d, cfg)
 }
 
+/// The model's file with `pad` bytes of filler between the last frame and the Game End (or the end
+/// of the raw element): unknown events declared in the payload table, 65 535-byte payloads plus one
+/// smaller one. Every known field is as in `m.encode()`; only the distance between Game Start and
+/// Game End grows (cheaply) past buffer-size boundaries.
+pub fn encode_padded(m: &ModelGame, pad: usize) -> Vec<u8> {
+	if pad < 2 {
+		return m.encode();
+	}
+	let mut raw = m.raw();
+	let mut free = (0x40u8..=0xF0).filter(|c| !spec::KNOWN_CODES.contains(c) && !raw.table.iter().any(|(k, _)| k == c));
+	let (big, small) = (free.next().unwrap(), free.next().unwrap());
+	let nbig = pad / 65536;
+	let rem = pad % 65536;
+	let at = raw.events.iter().position(|e| e.code == spec::EV_GAME_END).unwrap_or(raw.events.len());
+	let mut filler = Vec::new();
+	if nbig > 0 {
+		raw.table.push((big, 65535));
+		for k in 0..nbig {
+			let mut p = vec![0u8; 65535];
+			crate::gen::SplitMix(k as u64 + 1).fill(&mut p);
+			filler.push(crate::model::Ev::new(big, p, crate::model::Where::Other));
+		}
+	}
+	if rem >= 2 {
+		raw.table.push((small, (rem - 1) as u16));
+		let mut p = vec![0u8; rem - 1];
+		crate::gen::SplitMix(pad as u64).fill(&mut p);
+		filler.push(crate::model::Ev::new(small, p, crate::model::Where::Other));
+	}
+	raw.events.splice(at..at, filler);
+	raw.serialize()
+}
+
 /// Large games that cross 16-bit / 15-bit counters: many items, many frame rows, a big gecko list.
-pub const LARGE_CASES: usize = 3;
+pub const LARGE_CASES: usize = 5;
 pub fn large_model(i: usize) -> ModelGame {
 	use crate::gen::{payload, simple_model, Pattern};
 	use crate::model::{CharData, FrameOcc, Gecko};
 	use crate::spec::Kind;
 	match i % LARGE_CASES {
 		0 => {
-			// 300 rows x 250 items = 75 000 item events (> 2^16)
+			// 290 rows x 260 items = 75 400 item events (> 2^16 in total, > 2^8 per frame)
 			let v = (3, 16);
 			let mut m = simple_model((3, 16, 0), &[(1, false)], 0, 11, Pattern::Random, 1, true);
-			for fi in 0..300usize {
+			for fi in 0..290usize {
 				m.frames.push(FrameOcc {
 					id: spec::FIRST_FRAME + fi as i32,
 					start: Some(payload(Kind::FrameStart, v, fi as u64, Pattern::Random, 0)),
 					chars: vec![Some(CharData { pre: payload(Kind::Pre, v, fi as u64 + 1, Pattern::Random, 0), post: payload(Kind::Post, v, fi as u64 + 2, Pattern::Random, 0) })],
-					items: (0..250).map(|k| payload(Kind::Item, v, (fi * 1000 + k) as u64, Pattern::Random, 0)).collect(),
+					items: (0..260).map(|k| payload(Kind::Item, v, (fi * 1000 + k) as u64, Pattern::Random, 0)).collect(),
 					end: Some(payload(Kind::FrameEnd, v, fi as u64 + 3, Pattern::Random, 0)),
 				});
 			}
@@ -517,6 +550,31 @@ pub fn large_model(i: usize) -> ModelGame {
 					end: None,
 				});
 			}
+			m
+		}
+		3 => {
+			// 66 000 frame rows (> 2^16) in the 3.0-3.6 regime (Frame End without fields), Ice Climbers with Nana absent now and then
+			let v = (3, 5);
+			let mut m = simple_model((3, 5, 0), &[(2, true)], 0, 14, Pattern::Random, 1, true);
+			for fi in 0..66_000usize {
+				m.frames.push(FrameOcc {
+					id: spec::FIRST_FRAME + fi as i32,
+					start: Some(payload(Kind::FrameStart, v, fi as u64 + 5, Pattern::Random, 0)),
+					chars: vec![
+						Some(CharData { pre: payload(Kind::Pre, v, fi as u64, Pattern::Random, 0), post: payload(Kind::Post, v, fi as u64 + 7, Pattern::Random, 0) }),
+						(fi % 777 != 776).then(|| CharData { pre: payload(Kind::Pre, v, fi as u64 + 9, Pattern::Random, 0), post: payload(Kind::Post, v, fi as u64 + 11, Pattern::Random, 0) }),
+					],
+					items: if fi % 5000 == 4999 { vec![payload(Kind::Item, v, fi as u64, Pattern::Random, 0)] } else { vec![] },
+					end: Some(payload(Kind::FrameEnd, v, fi as u64 + 13, Pattern::Random, 0)),
+				});
+			}
+			m
+		}
+		4 => {
+			// one frame with 66 000 items (> 2^16 in a single frame), between two ordinary frames
+			let v = (3, 0);
+			let mut m = simple_model((3, 0, 0), &[(0, false)], 3, 15, Pattern::Random, 1, true);
+			m.frames[1].items = (0..66_000u64).map(|k| payload(Kind::Item, v, k + 3, Pattern::Random, 0)).collect();
 			m
 		}
 		_ => {
